@@ -13,13 +13,19 @@ RULE = ("interface DESCRIPTIONS: 8 corpus + 12 (thorough: 48) from the seed; for
         "histories of 16..36 operations on a p2p pair, each through the async or the blocking proxy at random: method calls with "
         "random argument values of the declared types (boundary integers, empty / non-ASCII strings, empty / multi-element arrays and "
         "maps, nested variants, structures), property reads and writes (cache off), signals emitted through the generated emitter and "
-        "received through the generated stream + args(). Observed: the value the proxy function returns, the handler log with the "
+        "received through the generated stream + args(); plus per description 2 (thorough 5) PROPERTY HISTORIES PER PROXY INSTANCE: three "
+        "persistent proxies (async + default cache, blocking + default cache, CacheProperties::No as control) each read every readable "
+        "property (populating the caches), then the value is changed through one of the three, through a fresh proxy or by a raw "
+        "Properties.Set, and all three read again — for every EmitsChangedSignal mode; after every op the driver makes every "
+        "initialised cache catch up (sentinel PropertiesChanged, polled), so reads do not depend on scheduling. Observed: the value the proxy function returns, the handler log with the "
         "arguments the handler saw, every signal on the wire with its signature. evaluations = operations; non-trivial = a history "
         "that has at least one successful and one failing operation")
 TRUSTED = ["the description -> Rust source emitter (props/ifacegen.py): interface and proxy are emitted from the SAME description",
            "harness/hiface; blocking proxies run on a watchdog thread against connections with internal executors",
            "the macros are MODELLED; the tie is the differential run on generated programs"]
-ASSUMPTIONS = ["the property cache is switched off (CacheProperties::No): caching is C31's subject",
+ASSUMPTIONS = ["one-shot proxy ops run with the property cache off; persistent proxies use the macro-generated builder defaults (cache on, "
+               "false-mode properties uncached); the cache's internals under concurrency and name-owner changes are C31's subject: here "
+               "every cache has processed all earlier signals before the next read (the driver synchronises)",
                "values travel unchanged at a given signature (codec: C01/C02); values are abstract here",
                "user code respects its Rust signatures (bh_respects); the destination is the peer's unique name (p2p)",
                "the blocking proxy is the async proxy under block_on: one model for both, both are run"]
@@ -37,8 +43,11 @@ LEVEL_TEXT = ("Theorems in coq/theories/Properties/C33.v over ALL interface desc
               "handler once with exactly the caller's arguments and returns exactly the handler's result or error, for every input list "
               "and every output shape (unit, single incl. structures, tuples incl. 0 and 1 elements) — the two macros' body-signature "
               "conventions compose to the identity (C33_reply_roundtrip); property reads return the stored value; writes store it "
-              "(outside one class inherited from C28); emitted signals arrive with equal arguments. The macros are modelled; the tie is "
+              "(outside one class inherited from C28); through one proxy instance with a populated default cache a read after a successful "
+              "write returns the written value for the modes true / invalidates / false (C33_cached_read_after_write; const may keep its "
+              "first value); emitted signals arrive with equal arguments. The macros are modelled; the tie is "
               "the differential run of generated interface + proxy pairs, async and blocking.")
 LEVEL_NOTE = ("partial for property writes only: refuted when the fallible getter called for the change notification fails (the write "
               "took effect, the proxy returns an error). Method calls, reads and signals are proved at full strength. Trusted: Coq kernel, "
-              "the hand-written models of both macros' output, the emitter, harness hiface. Cache off; p2p.")
+              "the hand-written models of both macros' output and of the proxy's property cache, the emitter, harness hiface. p2p; "
+              "sequential, caches synchronised after every op.")
